@@ -165,6 +165,30 @@ def run(replay=None):
         add('P2', P2, entry, text)
     for entry, text in reversed(corp):
         add('P1', P1, entry, text)
+    # the same texts through parser objects made with the documented debug switch, and through the module-level
+    # parse_* helpers (which build a parser per call): every way of obtaining an entry point is an entry point
+    import logging
+    logging.disable(logging.CRITICAL)      # debug parsers log the LALR conflicts they resolved; not our subject
+    import contextlib
+    import io
+    try:
+        with contextlib.redirect_stdout(io.StringIO()), contextlib.redirect_stderr(io.StringIO()):   # ... and dump the LALR stack on errors
+            PD = parsers(debug=True)
+            for entry, text in rnd.sample(sample, min(len(sample), 1500 if thorough else 500)) + [(e, t) for e, t in POLLUTERS] + \
+                    [('condition', t) for t in STATE_POOL] + [('property', t) for t in PROP_POOL]:
+                add('PD', PD, entry, text)
+    finally:
+        logging.disable(logging.NOTSET)
+    from hpl import parser as _hp
+    helpers = {'specification': _hp.parse_specification, 'property': _hp.parse_property, 'predicate': _hp.parse_predicate}
+
+    class _H:
+        def __init__(self, fn):
+            self.parse = fn
+    PH = {k: _H(v) for k, v in helpers.items()}
+    for entry, text in [x for x in rnd.sample(sample, min(len(sample), 600)) if x[0] in PH][:150 if thorough else 60] + \
+            [(e, t) for e, t in POLLUTERS if e in PH] + [('property', t) for t in PROP_POOL]:
+        add('PH', PH, entry, text)
     # all orders of small sets on fresh parser objects
     nsets = 12 if thorough else 4
     for k in range(nsets):
